@@ -64,6 +64,30 @@ class _Canon(ast.NodeTransformer):
             return ast.Compare(left=node.comparators[0], ops=[op], comparators=[node.left])
         return node
 
+    def visit_If(self, node):
+        self.generic_visit(node)
+        # one polarity per two-armed test: `if not c: B else: A` == `if c: A else: B`; likewise
+        # is not / != / not in / <= are rewritten to is / == / in / < with the arms swapped
+        if node.orelse:
+            t = node.test
+            neg = None
+            if isinstance(t, ast.UnaryOp) and isinstance(t.op, ast.Not):
+                neg = t.operand
+            elif isinstance(t, ast.Compare) and len(t.ops) == 1:
+                op = t.ops[0]
+                if isinstance(op, ast.IsNot):
+                    neg = ast.Compare(t.left, [ast.Is()], t.comparators)
+                elif isinstance(op, ast.NotEq):
+                    neg = ast.Compare(t.left, [ast.Eq()], t.comparators)
+                elif isinstance(op, ast.NotIn):
+                    neg = ast.Compare(t.left, [ast.In()], t.comparators)
+                elif isinstance(op, ast.LtE):
+                    neg = ast.Compare(t.comparators[0], [ast.Lt()], [t.left])
+            if neg is not None:
+                node.test, node.body, node.orelse = neg, node.orelse, node.body
+                return self.visit_If(node) if isinstance(neg, ast.UnaryOp) and isinstance(neg.op, ast.Not) else node
+        return node
+
     def visit_BinOp(self, node):
         self.generic_visit(node)
         # (-a) / b, (-a) * b, a * (-b)  ->  -(a op b)
